@@ -41,8 +41,11 @@ NAMES = [None, "a", "b", "c", "A", "a b", "sum", "x__1", "1x", "", "b_sum", "key
 BIN = {"add": operator.add, "sub": operator.sub, "mul": operator.mul, "truediv": operator.truediv,
        "floordiv": operator.floordiv, "mod": operator.mod, "pow": operator.pow}
 BINSYM = {"add": "+", "sub": "-", "mul": "*", "truediv": "/", "floordiv": "//", "mod": "%", "pow": "**"}
-CMP = {"lt": operator.lt, "le": operator.le, "gt": operator.gt, "ge": operator.ge, "eq": operator.eq, "ne": operator.ne}
-CMPSYM = {"lt": "<", "le": "<=", "gt": ">", "ge": ">=", "eq": "==", "ne": "!="}
+CMP = {"lt": operator.lt, "le": operator.le, "gt": operator.gt, "ge": operator.ge, "eq": operator.eq, "ne": operator.ne,
+       # the logical operators go through the same helper and promise the same: a non-nullable bool vector (also for int operands,
+       # whose &, |, ^ are ints in Python)
+       "and": operator.and_, "or": operator.or_, "xor": operator.xor}
+CMPSYM = {"lt": "<", "le": "<=", "gt": ">", "ge": ">=", "eq": "==", "ne": "!=", "and": "&", "or": "|", "xor": "^"}
 UN = {"neg": operator.neg, "pos": operator.pos, "abs": operator.abs}
 UNSYM = {"neg": "-{}", "pos": "+{}", "abs": "abs({})"}
 CAST = {"int": int, "float": float, "str": str, "bool": bool, "complex": complex, "date": D, "datetime": DT}
